@@ -287,8 +287,9 @@ Definition offset_case_ok (off : Z) (neg : bool) : bool :=
     | Err _ => false
     end.
 
-Definition offset_grid_ok : bool :=
-  forallb (fun off => offset_case_ok off false && offset_case_ok off true) (z_range (-32768) 65536).
+Definition offset_pair_ok (off : Z) : bool := offset_case_ok off false && offset_case_ok off true.
+
+Definition offset_grid_ok : bool := forallb offset_pair_ok (z_range (-32768) 65536).
 
 (* ------------------------------------------------------------------ examples *)
 Example ex_ob : OB_PLUS0000 = bs "+0000" /\ OB_MINUS0000 = bs "-0000". Proof. vm_compute. split; reflexivity. Qed.
